@@ -20,9 +20,9 @@ CHECKS = {
  "C18": dict(level="model_checking", design="4/C18", technique="TLA+ DhcpStore exhaustive over all crash points (TLC) + TLC trace validation (StoreTrace) of real opens on every model-reachable file state, restart-equivalence pairs, and SIGKILL at every write syscall (strace injection)",
    text="TLC checks C18a-d on every interleaving of the statement-level open/migrate/allocate step machine with a crash between any two steps, from fresh, pre-versioning, current and newer files; every file state the model reaches is constructed and handed to the real Pool; every scenario is run with and without a restart and the replies compared; the real process is SIGKILLed on entry to each pwrite64/fdatasync/unlink on the database or journal and the file reopened (acknowledged leases present, no partial row).",
    note="SQLite atomic commit assumed in the model, exercised in the SIGKILL runs; process kill, not power loss; the harness constructs and inspects files with its own rusqlite connection"),
- "C20": dict(level="model_checking", design="4/C20", technique="TLC trace validation (LeaseTrace observers Metrics/List) of get_pool_metrics / get_leases after every step of replayed histories; MC_Lease exhaustive for the store the observers read",
+ "C20": dict(level="model_checking", design="4/C20", technique="TLC trace validation (LeaseTrace observers Metrics/List) of get_pool_metrics / get_leases after every step of replayed histories; TLC trace validation (LeaseHttpTrace) of GET /api/v1/leases.json and /metrics of the real services after real DHCP exchanges; MC_Lease exhaustive for the store the observers read",
    text="After every step of every replayed history (incl. ticks to expiry-1/expiry/expiry+1 and the empty store) the gauges must equal |expiry>now| and |expiry<=now| for some instant inside the logged call interval and get_leases() must return exactly the stored rows, evaluated by TLC against the follower's table.",
-   note="function level (Pool) only so far; the HTTP/JSON rendering is not yet driven"),
+   note="function level (Pool observers) and service level (real DhcpService + http::run, DHCP clients on a veth pair, listing parsed by serde_json, gauges read from /metrics)"),
  "C02": dict(level="model_checking", design="4/C02", technique="TLA+ DhcpPolicy (executable transcription of erbium.conf(5)): TLC checks the C02 clauses on the model over an enumerated family and evaluates Allowed(config, request) for every recorded drain of the real handle_pkt (PolicyTrace)",
    text="TLC exhaustively checks the clauses of C02 on the DhcpPolicy model over a family of configurations x requests, prints each as a case, and then compares, per case, the set of addresses fresh clients can drain from the real loader + handle_pkt (until refusal) with Allowed(config, request) -- both inclusions; default pools of /8../23 prefixes are probed through build_default_config instead of drained.",
    note="policy trees depth<=3, width<=3; prefixes /8../30; the manual-silent cases are not generated; drains above the limit are inconclusive"),
@@ -51,8 +51,8 @@ CHECKS = {
    text="TLC checks AtMostOne, Own, Served and MaxTransmissions on every interleaving of 3 concurrent queries (UDP and TCP, 2 upstream ids so collisions are reachable, 3 transmissions, 3 adversary faults: loss, wrong id, TC, duplicates, TCP silence) and the leads-to property under weak fairness; the same predicates are evaluated per query on batches of real concurrent queries over IPv4-only, IPv6-only and dual-stack listeners against upstreams executing drop/duplicate/late/wrong-id/TC/reorder/silent schedules, incl. a forced upstream id collision.",
    note="MC bounds: 3 queries, 2 ids, MaxTx 3; the rig uses real timers (retransmission at 0.8 s x 1.5..2.5)"),
  "C08": dict(level="model_checking", design="4/C08", technique="TLA+ Acl (independent transcription): exhaustive MC (TLC) of the model's lemmas over all rule lists <= 1 rule + TLC trace validation (AclTrace, ForwardTrace) of acl::require_permission and of the real DNS listeners",
-   text="TLC proves host-bit irrelevance, nesting, mapped-address equivalence, first-match-wins and no-match-no-access on the Acl model, and evaluates Granted(first_match) for every decision of the real require_permission on YAML-loaded rule lists (0..6 rules, v4/v6 prefixes of boundary lengths with and without host bits, unix flag, all permission subsets) x clients (v4, v6, mapped, v4-compatible, loopback, unix) x 4 operations, and for real DNS clients on distinct source addresses (rcode, and whether the upstream saw the question, incl. cached names).",
-   note="HTTP binding (status codes of the API listeners) is covered when the HTTP part of the rig is available"),
+   text="TLC proves host-bit irrelevance, nesting, mapped-address equivalence, first-match-wins and no-match-no-access on the Acl model, and evaluates Granted(first_match) for every decision of the real require_permission on YAML-loaded rule lists (0..6 rules, v4/v6 prefixes of boundary lengths with and without host bits, unix flag, all permission subsets) x clients (v4, v6, mapped, v4-compatible, loopback, unix) x 4 operations, for real DNS clients on distinct source addresses (rcode, and whether the upstream saw the question, incl. cached names), and for real HTTP clients (TCP on 9 source addresses incl. mapped through a dual-stack listener; unnamed, path-bound and abstract-bound unix clients) on GET /, /metrics and /api/v1/leases.json (403 = refused).",
+   note="three bindings: acl::require_permission, the real DNS listeners, the real HTTP API listeners (TCP v4/v6/dual-stack, unix path/abstract) in a private namespace"),
  "C15": dict(level="model_checking", design="4/C15", technique="TLA+ DnsRoute: exhaustive MC (TLC) of permutation/case invariance over small tables + TLC trace validation (ForwardTrace) of the real DnsService with one scripted upstream per route",
    text="TLC proves on the DnsRoute model that the outcome is invariant under permutation of routes and suffixes and under the case of the name, total, and a server failure without route; for generated tables (1..6 routes x 0..4 suffixes, nested/sibling/empty suffixes, some in upper case) in two permutations and names in lower/upper/mixed case with and without RD, the rcode seen by a real client and the upstream that received the question must match DnsRoute!Outcomes.",
    note="each query carries a distinct (name, type) so the receiving upstream can be attributed"),
